@@ -483,8 +483,6 @@ def explore(cfg, prefix, depth, v, stats, scratch):
                 lcp += 1
         prev[0] = list(path)
         v.count("paths")
-        v.count("transitions_distinct", len(path) - lcp)
-        v.count(f"transitions_distinct:{cfg['cls']}", len(path) - lcp)
         bad_before = len(stats.fails), v.counters.get("violating_transitions", 0)
         fail_at = None
         if run.start():
@@ -497,6 +495,9 @@ def explore(cfg, prefix, depth, v, stats, scratch):
                 run.final_gets()
         else:
             fail_at = -1
+        done = len(path) if fail_at is None else max(0, fail_at + 1)
+        v.count("transitions_distinct", max(0, done - lcp))
+        v.count(f"transitions_distinct:{cfg['cls']}", max(0, done - lcp))
         run.finish_path()
         if DIAG["installed"] and DIAG["fails"] > run.diag_fails0 and \
                 v.counters.get("violating_transitions", 0) == bad_before[1]:
@@ -971,10 +972,17 @@ def run_case(desc):
         c = v.counters
         sample = {"desc": desc, "paths": c.get("paths"), "transitions_distinct": c.get("transitions_distinct"),
                   "violating_transitions": c.get("violating_transitions", 0), "states": len(stats.states)}
-    elif kind == "stress" and desc["i"] % 10 == 0:
+    elif kind == "stress" and desc["i"] in (0, 4):
         c = v.counters
         sample = {"desc": desc, "cross_process_ops": c.get("cross_process_ops"), "yield_injections": c.get("yield_injections"),
+                  "barriers": c.get("stress_barriers"), "get_hits": c.get("stress_get_hits"),
                   "raised": {k: n for k, n in c.items() if k.startswith("stress_raised")}}
+    elif kind == "random" and desc["i"] in (1, 70):
+        c = v.counters
+        sample = {"desc": desc, "ops": c.get("history_ops", 0) + c.get("history_ops_shared", 0),
+                  "first_history": [op_str(o, KEYS) for o in gen_history(
+                      random.Random(f"c14/{desc['seed']}/{desc['i']}/{desc['cfg']['cls']}"), desc["cfg"], 12)],
+                  "violating_transitions": c.get("violating_transitions", 0), "states": len(stats.states)}
     return v.result(keys=sorted(stats.states), sample=sample)
 
 
